@@ -55,6 +55,7 @@ func checkC10(c *Ctx) (string, error) {
 		checkSelectPairing(c, rp)
 		evalBufferedChan(c, rp)
 		checkSelfRendezvous(c, rp)
+		checkSelectNotifyOrder(c, rp)
 		c.Config = ""
 	}
 	w, err := loadMain(defaultCfg, "ssa")
